@@ -7,7 +7,7 @@ from typing import Dict, List, Optional, Set, Tuple
 from ..cfg import CFG
 from ..core import Ctx
 from ..model import dotted, kwarg, norm, walk_no_nested
-from .common import assigned_value, enclosing, expand_locals, resolve_local
+from .common import assigned_value, conditions_at, enclosing, expand_locals, resolve_local
 
 CMD = "pygamma_cmd"
 # option dest -> (callee suffix, keyword) the value must reach
@@ -101,15 +101,24 @@ def run(ctx: Ctx):
                   bad_detail=f"choices {missing} of {o['flags'][-1]} are accepted by the parser but never tested: they silently behave like the default",
                   construct=f"choices of {d}", key=f"handled:{d}")
         if d == "cat_dissim":
-            for lit, node in compared.items():
-                want = CHOICE_CLASS.get(lit)
-                if want is None:
+            for lit, want in sorted(CHOICE_CLASS.items()):
+                if lit not in compared:
                     continue
-                ifs = enclosing(f.node, node, (ast.If,))
-                body = ifs[-1].body if ifs else []
-                cl = [dotted(s.value.func) for s in body if isinstance(s, ast.Assign) and isinstance(s.value, ast.Call)]
-                ctx.check(cl == [want], "R-C20-2", f, node, f"'{lit}' selects {want}",
-                          bad_detail=f"choice '{lit}' builds {cl}, expected {want}", key=f"class:{lit}")
+                built = [s for s in walk_no_nested(f.node) if isinstance(s, ast.Assign) and isinstance(s.value, ast.Call) and dotted(s.value.func) == want]
+                # the class is built exactly when the option equals its choice (either spelling / branch order of the test)
+                def _selected(st):
+                    for t, pol in conditions_at(f.node, st):
+                        if isinstance(t, ast.Compare) and len(t.ops) == 1 and isinstance(t.ops[0], (ast.Eq, ast.NotEq)):
+                            l, r = t.left, t.comparators[0]
+                            for a, b in ((l, r), (r, l)):
+                                if norm(a) == f"{argsvar}.{d}" and isinstance(b, ast.Constant) and b.value == lit and isinstance(t.ops[0], ast.Eq if pol else ast.NotEq):
+                                    return True
+                    return False
+                others = [s for s in walk_no_nested(f.node) if isinstance(s, ast.Assign) and isinstance(s.value, ast.Call) and dotted(s.value.func) in CHOICE_CLASS.values()
+                          and dotted(s.value.func) != want and _selected(s)]
+                ctx.check(len(built) >= 1 and all(_selected(s) for s in built) and not others, "R-C20-2", f, built[0] if built else compared[lit], f"'{lit}' selects {want}",
+                          bad_detail=f"{want} is not built exactly when {o['flags'][-1]} == '{lit}' (built under another condition, or another class is built for that choice)",
+                          key=f"class:{lit}")
     ctx.require(n_choice >= 1, "R-C20-2", "no option with choices found")
 
     # ---------------- R-C20-3
@@ -239,6 +248,66 @@ def run(ctx: Ctx):
                  [getattr(e, "value", None) for e in n.value.elts] == ["filename", "gamma"]]
     ctx.check(bool(labels_ok), "R-C20-5", f, labels_ok[0] if labels_ok else None, "report columns start with filename, gamma (same order as the stored values)",
               key="labels")
+    # the optional columns: a label is appended under exactly the flag under which its value is stored (else the json report pairs values with
+    # the wrong names and the csv header does not match its rows)
+    if labels_ok:
+        lv = norm(labels_ok[0].targets[0])
+
+        def _flag_of(node):
+            fl = [(norm(t), pol) for t, pol in conditions_at(f.node, node) if norm(t) in (f"{argsvar}.gamma_cat", f"{argsvar}.gamma_k")]
+            return fl
+        lab_flags = {}
+        for c in calls:
+            if isinstance(c.func, ast.Attribute) and c.func.attr == "append" and norm(c.func.value) == lv and c.args and isinstance(c.args[0], ast.Constant):
+                lab_flags[c.args[0].value] = (_flag_of(c), c)
+        want_flags = {"gamma-cat": [(f"{argsvar}.gamma_cat", True)], "gamma-k": [(f"{argsvar}.gamma_k", True)]}
+        for lab, wf in want_flags.items():
+            got = lab_flags.get(lab)
+            ctx.check(got is not None and got[0] == wf, "R-C20-5", f, got[1] if got else labels_ok[0], f"column '{lab}' is declared exactly when its value is stored ({wf[0][0]})",
+                      bad_detail=f"column '{lab}' is declared under {got[0] if got else 'no flag at all'}, its value is stored under {wf}: header / json keys and values are misaligned",
+                      key=f"label:{lab}")
+    # the three modes are told apart by (output_csv is None, output_json is None): printing exactly when no file is requested, values stored
+    # whenever one is (the two file options are mutually exclusive)
+    def _mode_value(t, val):
+        if isinstance(t, ast.BoolOp):
+            vs = [_mode_value(x, val) for x in t.values]
+            if any(v is None for v in vs):
+                return None
+            return all(vs) if isinstance(t.op, ast.And) else any(vs)
+        if isinstance(t, ast.UnaryOp) and isinstance(t.op, ast.Not):
+            v = _mode_value(t.operand, val)
+            return None if v is None else not v
+        if isinstance(t, ast.Compare) and len(t.ops) == 1 and isinstance(t.comparators[0], ast.Constant) and t.comparators[0].value is None:
+            nm = norm(t.left)
+            if nm in val and isinstance(t.ops[0], (ast.Is, ast.IsNot)):
+                return val[nm] if isinstance(t.ops[0], ast.Is) else not val[nm]
+        return None
+
+    def _reached(node, val):
+        for t, pol in conditions_at(f.node, node):
+            if "output_csv" in norm(t) or "output_json" in norm(t):
+                v = _mode_value(t, val)
+                if v is None:
+                    return None
+                if v != pol:
+                    return False
+        return True
+    CSV, JSN = f"{argsvar}.output_csv", f"{argsvar}.output_json"
+    modes = {"print": {CSV: True, JSN: True}, "csv": {CSV: False, JSN: True}, "json": {CSV: True, JSN: False}}        # value: "is None"
+    prints = [c for c in calls if dotted(c.func) == "print" and c.args and gvar in {x.id for x in ast.walk(c.args[0]) if isinstance(x, ast.Name)}]
+    stores = [c for c in calls if isinstance(c.func, ast.Attribute) and c.func.attr == "append" and norm(c.func.value) == rl and c.args and
+              gvar in {x.id for x in ast.walk(resolve_local(f.node, c.args[0]) if isinstance(c.args[0], ast.Name) else c.args[0]) if isinstance(x, ast.Name)}]
+    if prints and stores:
+        p_ok = [_reached(c, modes["print"]) for c in prints]
+        s_ok = [(_reached(c, modes["csv"]), _reached(c, modes["json"])) for c in stores]
+        if any(v is None for v in p_ok) or any(v is None for pair in s_ok for v in pair):
+            ctx.undecided("R-C20-5", f, prints[0], "the test separating the printed report from the file reports is not a combination of `output_csv / output_json is None` (not a verdict)",
+                          key="mode-guard")
+        else:
+            ctx.check(all(p_ok) and all(a and b for a, b in s_ok), "R-C20-5", f, prints[0],
+                      "values are printed when no file is requested and stored for the writer whenever a csv or a json report is",
+                      bad_detail="the mode test is wrong: with a report file requested the values are not stored for the writer (or nothing is printed when none is)",
+                      key="mode-guard")
 
 
 def _acc(e: ast.AST, gvar: str) -> str:
